@@ -37,6 +37,16 @@ CHECKS["C20"] = ("flight", "exploration",
     "Real singleflight Group; callers, arrival times, task durations, task outcomes (value/error/panic) and the scheduling decisions at five guarded yield points between the lock sections of Group::work are drawn from the seed; the recorded history (event-sequence-stamped invoke/return/task-start/task-end) is checked: one task per flight, every caller gets the outcome of a flight of its key alive during its call, a call after the owner returned gets a new flight, nobody hangs (watchdog at quiescence).",
     "Trusted: tokio primitives. Multi-threaded interleavings are emulated at lock-section granularity (H5), not at atomic-instruction granularity.", "§7 C20")
 
+CACHE_NOTE = "Trusted: the file system (tmpfs), std::sync::Mutex. Interleavings are at the granularity of the H4 points (before each state-lock acquisition and file-system effect), which is the property's own granularity; one OS thread runs at a time."
+CHECKS["C12"] = ("cache", "exploration",
+    "deterministic thread-schedule simulation (cooperative one-at-a-time scheduler over real OS threads at guarded points) with on-disk fault injection while closed; virtual-xorb reference model",
+    "Real DiskCache under 1-4 simulated threads whose interleaving at every lock acquisition / file-system effect is drawn from the seed (4 strategies incl. PCT-like priorities and bounded pre-emption), racing deletions of item files while open, and between phases close -> seeded damage (bit-flip bursts <=32 bit, truncation, extension, deletion, junk files/dirs at all three levels, six rename kinds incl. well-formed names) -> re-open. Every hit is compared with the one legal answer of a per-key virtual xorb; panics are caught per operation. Two damage classes the format cannot detect are listed as known findings.",
+    CACHE_NOTE, "§7 C12")
+CHECKS["C13"] = ("cache", "exploration",
+    "deterministic thread-schedule simulation with invariant checks at every schedule point and quiescence checks against the directory listing",
+    "Same scheduler on damage-free histories (identical concurrent puts, nested/subsuming puts, eviction during get, racing deletions, re-opens with the same capacity): counters == tracked entries at every schedule point, capacity bound after every completed insertion, at quiescence every file is a tracked entry, read-back drops file-less entries (shadowed ones accounted explicitly), totals == directory, and again after re-open.",
+    CACHE_NOTE, "§7 C13")
+
 NOT_APPLICABLE = {
     "C06": "Every clause is a pure function of its input (hash identities, text-form round trips, avalanche); there is no schedule, clock, fault or history for a simulator to control, so deterministic simulation does not apply (DESIGN §7 C06). The independent hash implementations are exercised as oracles of C02/C03/C08.",
 }
